@@ -664,7 +664,13 @@ def node_text(n):
 def _ts_code_value(text):
     """Native mirror of TypeScriptMagicNumberAnalyzer._extract_numeric_value on the literal TEXT (ints only)."""
     try:
+        if text.endswith("n"):
+            text = text[:-1]
+        if text[:2].lower() in ("0x", "0o", "0b"):
+            return int(text, 0)
         if "." not in text and "e" not in text.lower():
+            if len(text) > 1 and text[0] == "0" and text.isdigit():
+                return int(text, 8) if set(text) <= set("01234567") else int(text, 10)
             return int(text, 0)
         v = float(text)
         return int(v) if v == int(v) else None
@@ -1476,15 +1482,8 @@ def rust_literals(maxlen):
 
 
 # ---- the genuine defects found by the enumeration (known findings), described by exact predicates on the literal text
-def js_known_defect(cls, text):
-    """-> (finding id, what the code is known to return) or None."""
-    if cls == "bigint":
-        return ("C02-ts-bigint-dropped", None)
-    if cls == "hex-integer" and ("e" in text.lower()):
-        return ("C02-ts-hex-e-dropped", None)
-    if cls == "legacy-octal" and text.strip("0") != "":
-        return ("C02-js-legacy-octal-dropped", None)
-    return None
+# (JS/TS: the three former findings -- hex literals with an e digit, BigInt literals, legacy octal-like literals -- are
+# repaired; every JS grammar class is checked by its plain property-level obligation, there is no adjusted variant)
 
 
 def rust_known_defect(cls, kind, text):
@@ -1531,8 +1530,8 @@ def literal_parsing_bounded(ctx):
 
     def run(lang, target, cases, call, known):
         """cases: (class, kind, text, ref). Per grammar class one PROPERTY-LEVEL obligation (code value == language
-        value); plus ONE finding-adjusted obligation per language: outside the recorded defect classes the value is
-        right, inside them the code does exactly what the finding says."""
+        value); for a language with recorded defect classes (`known`) additionally ONE finding-adjusted obligation:
+        outside the recorded classes the value is right, inside them the code does exactly what the finding says."""
         per_cls, adjusted_bad, n_adj = {}, [], 0
         for cls, kind, text, ref in cases:
             try:
@@ -1546,6 +1545,8 @@ def literal_parsing_bounded(ctx):
                 st["bad"].append({"literal": text, "language_value": ref, "code_value": got})
             elif not ok:
                 st["more"] = st.get("more", 0) + 1
+            if known is None:
+                continue
             kd = known(cls, kind, text)
             n_adj += 1
             if kd is None:
@@ -1562,6 +1563,8 @@ def literal_parsing_bounded(ctx):
                         "cases": st["n"], "witness": bad[:5], "witness_confirmed": bool(bad),
                         "note": (f"{lang} {cls}: {len(bad) + st.get('more', 0)} of {st['n']} literals get a wrong value "
                                  f"(first: {bad[0]})" if bad else f"{lang} {cls}: all {st['n']} literals get the language's value")})
+        if known is None:
+            return  # no recorded defect class for this language: the plain per-class obligations are the whole check
         obs.append({"name": f"bounded:{target}/value-is-language-value-adjusted", "kind": "bounded",
                     "verdict": "refuted" if adjusted_bad else "passed", "tool": "exhaustive enumeration", "budget": budget,
                     "cases": n_adj, "witness": adjusted_bad, "witness_confirmed": bool(adjusted_bad),
@@ -1570,7 +1573,7 @@ def literal_parsing_bounded(ctx):
 
     run("JS/TS", "TypeScriptMagicNumberAnalyzer._extract_numeric_value",
         [(c, "number", t, v) for c, t, v in js_literals(maxlen)],
-        lambda kind, text: ts._extract_numeric_value(node(kind, text)), lambda c, k, t: js_known_defect(c, t))
+        lambda kind, text: ts._extract_numeric_value(node(kind, text)), None)
     run("Rust", "RustMagicNumberAnalyzer._extract_numeric_value", rust_literals(maxlen),
         lambda kind, text: rs._extract_numeric_value(node(kind, text)), rust_known_defect)
 
